@@ -190,8 +190,12 @@ Definition delay_for_attempt (p : reconnect_policy) (attempt : N) (draw : f64)
 
    Reconnect (tower-resilience-reconnect/src/service.rs, ReconnectFuture::poll, Phase::Calling,
    reconnectable error; `attempt: u32` starts at 0 for every request):
-     *this.attempt = this.attempt.saturating_add(1);        // since /repo 0c0148b; was `+= 1`
-     if let Some(max) = max_attempts { if *this.attempt > max { return MaxAttemptsExceeded } }
+     let counted = this.attempt.checked_add(1);             // /repo 0c0148b (was `+= 1`) and
+     *this.attempt = counted.unwrap_or(u32::MAX);            // 4ccf9b3 (was saturating_add + `attempt > max`)
+     if let Some(max) = max_attempts {
+       if counted.map_or(true, |attempts| attempts > max) { return MaxAttemptsExceeded } }
+   i.e. the stored counter saturates, and a count that no longer fits a u32 exceeds every
+   configured maximum (max_attempts(u32::MAX) gives up after 2^32 failed calls);
      match policy.delay_for_attempt( *this.attempt as usize ) {
        Some(delay) => Phase::Sleeping(tokio::time::sleep(delay)), None => return ConnectionFailed }
    `u32 as usize` is lossless (usize has at least 32 bits on every tokio target).
@@ -200,7 +204,9 @@ Definition delay_for_attempt (p : reconnect_policy) (attempt : N) (draw : f64)
 Definition USIZE_MAX : N := 18446744073709551615%N.
 Definition U32_MAX : N := 4294967295%N.
 Definition usize_succ (a : N) : option N := if (a <? USIZE_MAX)%N then Some (a + 1)%N else None.
-Definition u32_sat_succ (a : N) : N := N.min (a + 1) U32_MAX.
+Definition u32_checked_succ (a : N) : option N := if (a <? U32_MAX)%N then Some (a + 1)%N else None.
+Definition u32_sat_succ (a : N) : N :=
+  match u32_checked_succ a with Some a1 => a1 | None => U32_MAX end.
 
 Inductive loop_step :=
 | LSleep (d : Z) (next : N)
@@ -220,8 +226,12 @@ Definition retry_step (b : backoff) (max_attempts attempt : N) (draw : f64) : lo
 
 Definition reconnect_step (p : reconnect_policy) (max_attempts : option N) (attempt : N) (draw : f64)
   : loop_step :=
+  let counted := u32_checked_succ attempt in
   let a1 := u32_sat_succ attempt in
-  if match max_attempts with Some m => (m <? a1)%N | None => false end then LStop
+  if match max_attempts with
+     | Some m => match counted with Some n => (m <? n)%N | None => true end
+     | None => false
+     end then LStop
   else match delay_for_attempt p a1 draw with
        | None => LPanic
        | Some None => LStop
